@@ -205,6 +205,20 @@ example : (run init (happyP ++ [.cancelRPC true, .deliver false 1, .proc false, 
     (fun s => (s.p.alive, s.p.store.state, s.r.alive, s.r.store.state)) =
     some (false, sCanceled, false, sCanceled) := by decide
 
+/-- Store level (`clientdb/sidecar.go`): updating a ticket the store knows always succeeds and keeps it known - whatever
+state is written, with or without order part, however often (second terminal write after the bid template is gone
+included). This is the assumption `updateOk` of the transition system. -/
+theorem C16_update_of_known_ticket_succeeds (db : TicketDB) (state : Nat) (hasOrder nonceZero : Bool)
+    (h : db.known = true) :
+    (updateSidecarDB db state hasOrder nonceZero).2 = true ∧
+    (updateSidecarDB db state hasOrder nonceZero).1.known = true := by
+  unfold updateSidecarDB removeBidTemplate
+  cases hb : db.bucket <;> cases ht : db.template <;> cases nonceZero <;> cases hasOrder <;>
+    cases hterm : isTerminal state <;> simp [h, hb, ht, hterm]
+
+example : ((updateSidecarDB ⟨true, true, true⟩ sCanceled true false).1, sCanceled) =
+    ((⟨true, true, false⟩ : TicketDB), 6) := by decide
+
 /-! ### the rule before the repair violates (3) and (4)
 
 With a finalization branch that does NOT return (`ret = false`, the code before the `fix:` commit), a ticket that
